@@ -15,9 +15,11 @@ EXPLANATION = (
     "parameters of the *same* pure function it passes as callable, after the explicit parameters, with the count slot equal to "
     "len(params); forward splits at that slot; (S) every nested function that calls a pure function of the enclosing functional "
     "and is handed to .apply / make_sibling is itself decorated make_sibling(<that pure function or a sibling of it>); (D) "
-    "get_pure_function covers PureFunction / function-or-ScriptFunction / bound method / callable object x EditableModule / "
-    "nn.Module and raises on every other path; (U) PureFunction derives the current parameters from the same Uniquifier that "
-    "set/restore use to re-expand, and MultiSiblingPureFunction splits with offsets accumulated from the per-function lengths; "
+    "get_pure_function, evaluated abstractly over 11 kinds of argument (PureFunction / plain or scripted function / bound method or "
+    "callable object x EditableModule / nn.Module / both / other / a non-callable), ends in the right wrapper with the right (object, "
+    "method) or raises, and make_sibling distinguishes 0 / 1 / several parents; (U) PureFunction derives the current parameters from "
+    "the same Uniquifier that set/restore use to re-expand, and an abstract round trip of the MultiSibling getter / setter over siblings "
+    "holding 2, 0 and 3 tensors hands each sibling exactly its own slice; "
     "(I) the 'identical parameters' short-cut of set_objparams is a universal statement over all pairs. NOT decided: numerical "
     "equality between representations; stale alias caches after the user re-assigns tensors.")
 ASSUMPTIONS = ["name-based call resolution", "torch.nn.Module.named_parameters order is registration order"]
